@@ -15,6 +15,7 @@ import (
 type scaleVWorld struct {
 	shared *mocker.Builder
 	fresh  map[int]*mocker.Builder
+	held   map[string]mocker.VarMock // the handle of the latest lookup, per builder and variable
 }
 
 func (w *scaleVWorld) Name() string { return "scale-var" }
@@ -22,14 +23,22 @@ func (w *scaleVWorld) Begin() {
 	vars.RestoreSV()
 	w.shared = mocker.Create()
 	w.fresh = map[int]*mocker.Builder{}
+	w.held = map[string]mocker.VarMock{}
 }
 
-func scaleVMock(b *mocker.Builder, i int, kind string, id int) {
+func (w *scaleVWorld) mock(b *mocker.Builder, key string, i int, kind, via string, id int) {
 	v := id*100000 + i*100 + 7
-	if kind == "apply" {
-		b.Var(&vars.SV[i-1]).Apply(func() int { return v })
+	var h mocker.VarMock
+	if via == "held" && w.held[key] != nil {
+		h = w.held[key]
 	} else {
-		b.Var(&vars.SV[i-1]).Set(v)
+		h = b.Var(&vars.SV[i-1])
+		w.held[key] = h
+	}
+	if kind == "apply" {
+		h.Apply(func() int { return v })
+	} else {
+		h.Set(v)
 	}
 }
 
@@ -39,14 +48,14 @@ func (w *scaleVWorld) Do(st Step) string {
 		switch st.Str("op") {
 		case "MockShared":
 			for _, i := range maskIdx(st["is"]) {
-				scaleVMock(w.shared, i, st.Str("kind"), id)
+				w.mock(w.shared, fmt.Sprint("s", i), i, st.Str("kind"), st.Str("via"), id)
 			}
 		case "MockFresh":
 			for _, i := range maskIdx(st["is"]) {
 				if w.fresh[i] == nil {
 					w.fresh[i] = mocker.Create()
 				}
-				scaleVMock(w.fresh[i], i, st.Str("kind"), id)
+				w.mock(w.fresh[i], fmt.Sprint("f", i), i, st.Str("kind"), st.Str("via"), id)
 			}
 		case "CancelShared":
 			for _, i := range maskIdx(st["is"]) {
